@@ -28,3 +28,31 @@ func verifCache(event string, selector string) {
 	}
 	VerifCache(event, selector, held)
 }
+
+// VerifNew and VerifExec, when installed, observe the two public calls of a query: New (the
+// caller's document, the query text as passed in, the options, the outcome) and Exec (its outcome).
+var VerifNew func(query *Query, data Map, text string, options *Options, err error)
+var VerifExec func(query *Query, result []any, err error)
+
+func verifNew(result **Query, data Map, text string, options []QueryOption, err *error) {
+	if VerifNew == nil {
+		return
+	}
+	// the options as the call applied them (read off a scratch query when New failed early)
+	scratch := &Query{options: &Options{}}
+	for _, option := range options {
+		option(scratch)
+	}
+	VerifNew(*result, data, text, scratch.options, *err)
+}
+
+func verifExec(query *Query, result *[]any, err *error) {
+	if VerifExec != nil {
+		VerifExec(query, *result, *err)
+	}
+}
+
+// VerifOptionFlags reports the switches of an option set (for harnesses outside the package).
+func VerifOptionFlags(o *Options) (wrapped, postgres, idiomaticArrays bool, constants map[string]any, vars map[string]any) {
+	return o.wrapped, o.postgresEscapingDialect, o.idomaticArrays, o.constants, o.vars
+}
